@@ -39,9 +39,7 @@ class PLISTNode(ContainerNode):
         return self.root.calculate_total_size()
 
     def print(self, printer: Printer):
-        printer.write(PLIST_HEADER)
-        self.root.print(printer)
-        printer.write(PLIST_FOOTER)
+        PLISTFormatter.DEFAULT_INSTANCE.print(printer, self)
 
     def __iter__(self):
         yield self.root
